@@ -885,12 +885,13 @@ async fn handler_writers(req: &mut Req<'_>, st: &mut HState) -> io::Result<ExitS
         drop(out);
     }
     let late_datas: Vec<Vec<u8>> = (0..late_n * 2).map(|sq| gen_write_data(st, 0x60, sq)).collect();
-    struct LateSlot { writers: Vec<StreamWriter<SimWrite>>, waker: Option<std::task::Waker>, closed: bool }
-    let slot = std::sync::Arc::new(std::sync::Mutex::new(LateSlot { writers: Vec::new(), waker: None, closed: false }));
+    struct LateSlot { writers: Vec<StreamWriter<SimWrite>>, waker: Option<std::task::Waker>, closed: bool, kept: Vec<StreamWriter<SimWrite>> }
+    let slot = std::sync::Arc::new(std::sync::Mutex::new(LateSlot { writers: Vec::new(), waker: None, closed: false, kept: Vec::new() }));
     let mut futs: Vec<Pin<Box<dyn std::future::Future<Output = io::Result<()>> + Send + '_>>> = Vec::new();
     let world = st.world.clone();
     let idx = st.idx;
-    for (wi, mut w) in writers.into_iter().enumerate() {
+    // the writers outlive their sub-tasks (a handler that gives up on an error still owns them until it returns)
+    for (wi, w) in writers.iter_mut().enumerate() {
         let world = world.clone();
         let n_writes = 1 + st.pick(4) as usize;
         let mut datas = Vec::new();
@@ -899,9 +900,8 @@ async fn handler_writers(req: &mut Req<'_>, st: &mut HState) -> io::Result<ExitS
         }
         futs.push(Box::pin(async move {
             for (d, flush) in datas {
-                h_write(&mut w, &world, idx, d, flush).await?;
+                h_write(&mut *w, &world, idx, d, flush).await?;
             }
-            drop(w);
             Ok(())
         }));
     }
@@ -930,7 +930,13 @@ async fn handler_writers(req: &mut Req<'_>, st: &mut HState) -> io::Result<ExitS
                 }).await;
                 let Some(mut w) = got else { break };
                 for _ in 0..2 {
-                    if let Some(d) = datas.next() { h_write(&mut w, &world_c, idx, d, false).await?; }
+                    if let Some(d) = datas.next() {
+                        if let Err(e) = h_write(&mut w, &world_c, idx, d, false).await {
+                            // keep the writer (and whatever it holds) until the handler returns
+                            slot_c.lock().unwrap_or_else(std::sync::PoisonError::into_inner).kept.push(w);
+                            return Err(e);
+                        }
+                    }
                 }
                 drop(w);
             }
@@ -1021,6 +1027,8 @@ pub struct ConnOpts {
     /// Request shutdown as a scheduler event once this many steps have run (C14).
     pub shutdown: Option<u64>,
     pub strict_no_spurious: bool,
+    /// C14: request shutdown from inside this transport read call instead of between polls.
+    pub shutdown_in_read: Option<usize>,
 }
 
 pub struct ConnOutcome {
@@ -1076,7 +1084,19 @@ pub fn run_conn_with(cx: Ctx, plan: &Plan, knobs: Knobs, o: &ConnOpts, init: imp
     let handler = make_handler(shared.clone(), o.mode);
     let conn = token.run(SimRead(shared.clone()), SimWrite(shared.clone()), handler);
     ex.tasks.push(Task::new("conn", Box::pin(conn)));
-    let mut runner_opt = Some(runner);
+    // the runner lives in a shared slot: the shutdown request may also come from inside a transport read
+    let runner_slot: std::sync::Arc<std::sync::Mutex<Option<Runner>>> = std::sync::Arc::new(std::sync::Mutex::new(Some(runner)));
+    let fut_slot: std::sync::Arc<std::sync::Mutex<Option<Pin<Box<dyn Future<Output = ()> + Send>>>>> = std::sync::Arc::new(std::sync::Mutex::new(None));
+    if let Some(call) = o.shutdown_in_read {
+        let (rs, fs) = (runner_slot.clone(), fut_slot.clone());
+        let mut w = lock(&shared);
+        w.shutdown_in_read_call = Some(call);
+        w.mid_poll_shutdown = Some(Box::new(move || {
+            if let Some(r) = rs.lock().unwrap_or_else(std::sync::PoisonError::into_inner).take() {
+                *fs.lock().unwrap_or_else(std::sync::PoisonError::into_inner) = Some(Box::pin(r.shutdown()));
+            }
+        }));
+    }
     let mut shutdown_task: Option<usize> = None;
     let mut pending_while_live = false;
     let mut ready_while_live = false;
@@ -1086,17 +1106,22 @@ pub fn run_conn_with(cx: Ctx, plan: &Plan, knobs: Knobs, o: &ConnOpts, init: imp
         let mut control = |ex: &mut Exec, fire: Option<usize>| -> Vec<usize> {
             match fire {
                 None => {
+                    // a shutdown future created inside a transport read becomes a task of its own now
+                    if let Some(f) = fut_slot.lock().unwrap_or_else(std::sync::PoisonError::into_inner).take() {
+                        ex.tasks.push(Task::new("shutdown", f));
+                    }
                     let due = ws.map_or(false, |t| lock(&ex.world).step >= t);
-                    if due && runner_opt.is_some() { vec![0] } else { Vec::new() }
+                    if due && runner_slot.lock().unwrap_or_else(std::sync::PoisonError::into_inner).is_some() { vec![0] } else { Vec::new() }
                 }
                 Some(_) => {
                     // request shutdown now
-                    let r = runner_opt.take().expect("runner");
+                    let Some(r) = runner_slot.lock().unwrap_or_else(std::sync::PoisonError::into_inner).take() else { return Vec::new() };
                     {
                         let mut w = lock(&ex.world);
                         let step = w.step;
                         w.shutdown_requested_at_step = Some(step);
                         w.idle_at_shutdown = w.handler_log.iter().all(|h| h.finished) && w.handler_log.len() <= w.end_requests;
+                        if w.idle_at_shutdown && w.freeze_if_idle { w.peer_frozen = true; w.cx.probe("client_frozen_at_shutdown"); }
                         w.reads_after_mark = 0;
                         w.cx.fault("shutdown_requested");
                         let phase = if w.handler_log.iter().any(|h| !h.finished) { "shutdown_during_handler" } else if w.read_calls == 0 { "shutdown_before_first_read" } else { "shutdown_between_or_preamble" };
@@ -1112,7 +1137,8 @@ pub fn run_conn_with(cx: Ctx, plan: &Plan, knobs: Knobs, o: &ConnOpts, init: imp
         let e = ex.run(&mut control);
         match e {
             RunEnd::Quiescent => {
-                if want_shutdown.is_some() && runner_opt.is_some() {
+                if fut_slot.lock().unwrap_or_else(std::sync::PoisonError::into_inner).is_some() { continue; }
+                if want_shutdown.is_some() && runner_slot.lock().unwrap_or_else(std::sync::PoisonError::into_inner).is_some() {
                     // everything settled before the chosen step: request shutdown now
                     want_shutdown = Some(0);
                     continue;
@@ -1133,7 +1159,7 @@ pub fn run_conn_with(cx: Ctx, plan: &Plan, knobs: Knobs, o: &ConnOpts, init: imp
         if !ex.tasks[i].done() && task_done { pending_while_live = true; }
     }
     drop(ex);
-    drop(runner_opt);
+    drop(runner_slot);
     let world = {
         let mut g = lock(&shared);
         let dummy = World::new(Ctx::new(Chooser::replay(Vec::new()), false), knobs, Vec::new(), Vec::new());
@@ -1418,6 +1444,19 @@ fn note_plan(cx: &mut Ctx, plan: &Plan) {
 fn check_termination(out: &ConnOutcome, plan: &Plan, oracle_prefix: &str) -> VResult {
     let w = &out.world;
     vcheck!(out.end == "quiescent", "hang", "step cap reached: the connection task keeps running without finishing");
+    // Quiescence = no task has been woken and the environment has nothing left to do (the client has sent all it may
+    // send before it sees more output, or has closed). A connection task that is still pending then waits for
+    // something that will never come: the two sides wait on each other (or the task sleeps through a wake-up it
+    // never got) - whatever it is suspended on.
+    if !out.task_done {
+        let in_handler = w.handler_log.iter().any(|h| !h.finished);
+        let on = if w.read_waker.is_some() { "transport read" } else if w.write_waker.is_some() { "transport write" } else { "something that is not the transport (a lock or a sub-task that is never woken)" };
+        let site = if in_handler { "handler_never_resumed" } else { "task_never_resumed" };
+        if !(w.read_waker.is_some() && w.next_seg < w.segs.len() && !w.owed_triggers.is_empty()) {
+            // (the closed-loop read-side cycle keeps its own, more specific report)
+            vfail!(&format!("{oracle_prefix}_stalled"), site, "nothing is runnable and the client can do nothing more, but the connection task is unfinished: it is suspended on {on} (read {} of {} bytes sent, {} handler invocations, in handler: {in_handler})", w.read_pos, w.sent, w.handler_log.len());
+        }
+    }
     // every request must have been served: the client script is compliant and complete
     let mut expect_served = 0;
     for rp in &plan.reqs {
@@ -1453,7 +1492,7 @@ pub fn c07(cx: &mut Ctx) -> VResult {
     note_plan(cx, &plan);
     let knobs = gen_knobs(cx, true, plan.wire.len());
     let inner = take_cx(cx);
-    let mut out = run_conn(inner, &plan, knobs, &ConnOpts { mode: HandlerMode::Seq, rfault: RFault::None, wfault: WFault::None, shutdown: None, strict_no_spurious: false });
+    let mut out = run_conn(inner, &plan, knobs, &ConnOpts { mode: HandlerMode::Seq, rfault: RFault::None, wfault: WFault::None, shutdown: None, strict_no_spurious: false, shutdown_in_read: None });
     give_back(cx, &mut out);
     for (i, inv) in out.world.handler_log.iter().enumerate() {
         if let Some(rp) = plan.reqs.get(i) {
@@ -1527,7 +1566,7 @@ fn c08_any(cx: &mut Ctx, hmode: HandlerMode, burst: bool) -> VResult {
     let knobs = gen_knobs(cx, false, plan.wire.len());
     let inner = take_cx(cx);
     let triggers: Vec<usize> = plan.replies.iter().filter(|r| !reply_is_end(r)).map(|r| r.rec_end).collect();
-    let mut out = run_conn_with(inner, &plan, knobs, &ConnOpts { mode: hmode, rfault: RFault::None, wfault: WFault::None, shutdown: None, strict_no_spurious: true }, |w| {
+    let mut out = run_conn_with(inner, &plan, knobs, &ConnOpts { mode: hmode, rfault: RFault::None, wfault: WFault::None, shutdown: None, strict_no_spurious: true, shutdown_in_read: None }, |w| {
         w.owed_triggers = triggers.clone();
         if burst {
             let mut b = vec![0usize];
@@ -1587,7 +1626,7 @@ pub fn c09(cx: &mut Ctx) -> VResult {
     let mut knobs = gen_knobs(cx, true, plan.wire.len());
     if knobs.write_pending == 0 && cx.ch.chance(1, 2) { knobs.write_pending = 4; }
     let inner = take_cx(cx);
-    let mut out = run_conn(inner, &plan, knobs, &ConnOpts { mode: HandlerMode::Readers, rfault: RFault::None, wfault: WFault::None, shutdown: None, strict_no_spurious: false });
+    let mut out = run_conn(inner, &plan, knobs, &ConnOpts { mode: HandlerMode::Readers, rfault: RFault::None, wfault: WFault::None, shutdown: None, strict_no_spurious: false, shutdown_in_read: None });
     give_back(cx, &mut out);
     handler_violations(&out)?;
     for (i, inv) in out.world.handler_log.iter().enumerate() {
@@ -1636,7 +1675,7 @@ pub fn c10(cx: &mut Ctx) -> VResult {
     let wfault = if cx.ch.chance(1, 3) { WFault::ErrAtCall(cx.ch.range(0, 60)) } else { WFault::None };
     let faulted = wfault != WFault::None;
     let inner = take_cx(cx);
-    let mut out = run_conn_with(inner, &plan, knobs, &ConnOpts { mode: HandlerMode::Writers, rfault: RFault::None, wfault, shutdown: None, strict_no_spurious: false }, |w| w.retry_failed_writes = true);
+    let mut out = run_conn_with(inner, &plan, knobs, &ConnOpts { mode: HandlerMode::Writers, rfault: RFault::None, wfault, shutdown: None, strict_no_spurious: false, shutdown_in_read: None }, |w| w.retry_failed_writes = true);
     give_back(cx, &mut out);
     handler_violations(&out)?;
     if faulted && out.world.write_failed_at.is_some() {
@@ -1686,7 +1725,7 @@ pub fn c11(cx: &mut Ctx) -> VResult {
     note_plan(cx, &plan);
     let knobs = gen_knobs(cx, true, plan.wire.len());
     let inner = take_cx(cx);
-    let mut out = run_conn(inner, &plan, knobs, &ConnOpts { mode: HandlerMode::Seq, rfault: RFault::None, wfault: WFault::None, shutdown: None, strict_no_spurious: false });
+    let mut out = run_conn(inner, &plan, knobs, &ConnOpts { mode: HandlerMode::Seq, rfault: RFault::None, wfault: WFault::None, shutdown: None, strict_no_spurious: false, shutdown_in_read: None });
     give_back(cx, &mut out);
     handler_violations(&out)?;
     for (i, inv) in out.world.handler_log.iter().enumerate() {
@@ -1735,7 +1774,7 @@ pub fn c12(cx: &mut Ctx) -> VResult {
     let start = cx.ch.log.len();
     let hmode = match cx.ch.weighted(&[5, 2, 1]) { 0 => HandlerMode::Seq, 1 => HandlerMode::Readers, _ => HandlerMode::Writers };
     let inner = take_cx(cx);
-    let copts = |rf, wf| ConnOpts { mode: hmode, rfault: rf, wfault: wf, shutdown: None, strict_no_spurious: true };
+    let copts = |rf, wf| ConnOpts { mode: hmode, rfault: rf, wfault: wf, shutdown: None, strict_no_spurious: true, shutdown_in_read: None };
     let mut out = run_conn_with(inner, &plan, knobs, &copts(RFault::None, WFault::None), |w| w.force_propagate = true);
     give_back(cx, &mut out);
     handler_violations(&out)?;
@@ -1820,7 +1859,7 @@ pub fn c12(cx: &mut Ctx) -> VResult {
     Ok(())
 }
 
-pub const C14_PROBES: &[&str] = &["reply_cut_by_shutdown", "idle_at_shutdown", "handler_running_at_shutdown", "shutdown_future_ready_after_conn", "conn_stopped_by_shutdown"];
+pub const C14_PROBES: &[&str] = &["client_frozen_at_shutdown", "shutdown_inside_a_transport_read", "reply_cut_by_shutdown", "idle_at_shutdown", "handler_running_at_shutdown", "shutdown_future_ready_after_conn", "conn_stopped_by_shutdown"];
 
 /// C14 (connection side): graceful shutdown at an arbitrary scheduling step.
 pub fn c14_conn(cx: &mut Ctx) -> VResult {
@@ -1832,8 +1871,14 @@ pub fn c14_conn(cx: &mut Ctx) -> VResult {
     note_plan(cx, &plan);
     let knobs = gen_knobs(cx, true, plan.wire.len());
     let after = match cx.ch.weighted(&[2, 3, 3, 2, 1]) { 0 => 0, 1 => cx.ch.range(1, 20), 2 => cx.ch.range(20, 200), 3 => cx.ch.range(200, 2000), _ => cx.ch.range(2000, 20000) } as u64;
+    // a third of the runs request shutdown from inside a transport read call - the connection task is in the middle of
+    // a poll, as it would be when another thread calls Runner::shutdown() - instead of between two polls
+    let in_read = if cx.ch.chance(1, 3) { Some(match cx.ch.weighted(&[3, 3, 2]) { 0 => 0, 1 => cx.ch.range(1, 6), _ => cx.ch.range(6, 60) }) } else { None };
+    // in half of the runs the client does nothing any more once shutdown was requested while the connection is idle
+    let cx_freeze = cx.ch.chance(1, 2);
     let inner = take_cx(cx);
-    let mut out = run_conn(inner, &plan, knobs, &ConnOpts { mode: HandlerMode::Seq, rfault: RFault::None, wfault: WFault::None, shutdown: Some(after), strict_no_spurious: false });
+    let freeze = cx_freeze;
+    let mut out = run_conn_with(inner, &plan, knobs, &ConnOpts { mode: HandlerMode::Seq, rfault: RFault::None, wfault: WFault::None, shutdown: Some(if in_read.is_some() { u64::MAX / 2 } else { after }), strict_no_spurious: false, shutdown_in_read: in_read }, |w| w.freeze_if_idle = freeze);
     give_back(cx, &mut out);
     handler_violations(&out)?;
     let w = &out.world;
@@ -1903,7 +1948,7 @@ pub fn c12_hostile(cx: &mut Ctx) -> VResult {
     let knobs = gen_knobs(cx, true, plan.wire.len());
     let hmode = if cx.ch.chance(1, 4) { HandlerMode::Readers } else { HandlerMode::Seq };
     let inner = take_cx(cx);
-    let mut out = run_conn(inner, &plan, knobs, &ConnOpts { mode: hmode, rfault: RFault::None, wfault: WFault::None, shutdown: None, strict_no_spurious: false });
+    let mut out = run_conn(inner, &plan, knobs, &ConnOpts { mode: hmode, rfault: RFault::None, wfault: WFault::None, shutdown: None, strict_no_spurious: false, shutdown_in_read: None });
     give_back(cx, &mut out);
     let w = &out.world;
     vcheck!(!w.spun, "c12_spin", "hostile traffic: a single poll of the connection task made more than {} transport calls without returning", SPIN_LIMIT);
@@ -1953,7 +1998,7 @@ pub fn c05_async(cx: &mut Ctx) -> VResult {
     let knobs = gen_knobs(cx, true, plan.wire.len());
     let hmode = if cx.ch.chance(1, 3) { HandlerMode::Readers } else { HandlerMode::Seq };
     let inner = take_cx(cx);
-    let mut out = run_conn_with(inner, &plan, knobs, &ConnOpts { mode: hmode, rfault: RFault::None, wfault: WFault::None, shutdown: None, strict_no_spurious: false }, |w| w.read_everything = true);
+    let mut out = run_conn_with(inner, &plan, knobs, &ConnOpts { mode: hmode, rfault: RFault::None, wfault: WFault::None, shutdown: None, strict_no_spurious: false, shutdown_in_read: None }, |w| w.read_everything = true);
     give_back(cx, &mut out);
     for (i, inv) in out.world.handler_log.iter().enumerate() {
         if let Some(rp) = plan.reqs.get(i) { if inv.finished && inv.read_pos_at_end > rp.end { cx.probe("pipelined_next_request_buffered_at_close"); } }
